@@ -122,6 +122,12 @@ CHECKS = {
         text='Every name of length 1 and 2 (thorough: also 3 in the unquoted context) over a 27-character alphabet of shell-special characters, preceded by a unique prefix, is created as a file (or as a directory for cd); the prefix is typed unquoted, after an open single quote and after an open double quote, TAB and Enter are pressed in the real interactive cicada on a pty: the helper must receive exactly the entry name (cd must enter exactly that directory). Candidate lists (TAB TAB) on a shared-prefix population must offer exactly the entries with the typed prefix, directories only after cd. Failures inside a batch are believed only when reproduced alone in a fresh session.',
         note='Single-candidate completion per prefix; completion end is detected by terminal quiescence (40 ms); names longer than the bound are outside.',
         ref='DESIGN.md §4 C20'),
+    'C07': dict(
+        engine='E5 pty session explorer on the real interactive binary with a reference model of job state',
+        technique='exhaustive enumeration of all action sequences enabled in a reference model up to a depth, each replayed on the real interactive binary under a pseudo-terminal with a controlled schedule (gated helpers, awaited conditions instead of sleeps), oracle evaluated after every action',
+        text='All sequences of 4 actions over the reduced alphabet (984) and of 3 actions over the full alphabet (thorough: 4 over the full alphabet, 9.8 k sessions, and 5 over the reduced one) from {launch fg pipeline of 1/2 stages, launch bg pipeline, Ctrl-Z, Ctrl-C, fg <id>, bg <id>, external SIGSTOP / SIGCONT / SIGKILL of a member, release the gate (normal exit), jobs, empty line, not-found and failing command} with <= 2 jobs alive are replayed from a fresh interactive shell on a pty; after every action the driver waits for the condition the model predicts: tcgetpgrp of the terminal = group of the running foreground job, else the shell group; every stage in the group of the first stage; members stopped / running / gone in /proc; the parsed `jobs` listing equals the model (ids, leaders, Stopped/Running), also at the end of every sequence.',
+        note='Signal delivery is serialised by the driver (simultaneous arrivals are C06); fg/bg always get an explicit id; each condition is awaited at most 5 s.',
+        ref='DESIGN.md §4 C07'),
 }
 
 NOT_YET = 'check not built yet in this round (planned, see DESIGN.md §4)'
